@@ -8,6 +8,7 @@ import (
 	"net"
 	"strconv"
 	"strings"
+	"syscall"
 	"time"
 
 	"github.com/cybergarage/go-redis/redis"
@@ -44,7 +45,8 @@ type scriptConn struct {
 	blocks  []int // complete reply frames written at each blocking point (a Read that had to wait for a new segment)
 	closed  int
 	wantBlk bool
-	wfail   int // >0: the wfail-th and every later Write fails
+	rerr    string // "", "closed", "reset": the error the read at the end of the stream returns (default EOF)
+	wfail   int    // >0: the wfail-th and every later Write fails
 	writes  int
 }
 
@@ -55,6 +57,13 @@ func (c *scriptConn) Read(b []byte) (int, error) {
 		c.blocks = append(c.blocks, countFrames(c.written))
 	}
 	if len(c.segs) == 0 {
+		// how the stream ends: an orderly end (EOF), the socket closed underneath the reader (Stop), or a reset by the peer
+		switch c.rerr {
+		case "closed":
+			return 0, net.ErrClosed
+		case "reset":
+			return 0, &net.OpError{Op: "read", Net: "tcp", Err: syscall.ECONNRESET}
+		}
 		return 0, io.EOF
 	}
 	n := copy(b, c.segs[0])
@@ -368,6 +377,7 @@ type serveCase struct {
 	trace     bool
 	blk       bool
 	wfail     int
+	rerr      string
 	segs      [][]byte
 	script    []scriptedResult
 }
@@ -445,6 +455,8 @@ func parseServeCase(toks []string) *serveCase {
 			c.blk = true
 		case strings.HasPrefix(t, "wfail="):
 			c.wfail, _ = strconv.Atoi(t[6:])
+		case strings.HasPrefix(t, "rerr="):
+			c.rerr = t[5:]
 		}
 	}
 	if len(secs) > 1 {
@@ -487,7 +499,7 @@ func newServerFor(c *serveCase, log *eventLog) (*redis.Server, *double) {
 func runServe(c *serveCase) *serveResult {
 	log := &eventLog{}
 	srv, d := newServerFor(c, log)
-	conn := &scriptConn{log: log, segs: c.segs, wfail: c.wfail}
+	conn := &scriptConn{log: log, segs: c.segs, wfail: c.wfail, rerr: c.rerr}
 	res := &serveResult{}
 	done := make(chan struct{})
 	go func() {
